@@ -457,7 +457,19 @@ class EdgeQLSourceGenerator(codegen.SourceGenerator):
 
     def visit_DetachedExpr(self, node: qlast.DetachedExpr) -> None:
         self._write_keywords('DETACHED ')
-        self.visit(node.expr)
+        # DETACHED binds tighter than path steps and indirection:
+        # 'detached (a.b)' is not 'detached a.b' (i.e. '(detached a).b')
+        expr = node.expr
+        simple = (
+            isinstance(expr, qlast.Path)
+            and len(expr.steps) == 1
+            and not expr.partial
+        )
+        if not simple:
+            self.write('(')
+        self.visit(expr)
+        if not simple:
+            self.write(')')
 
     def visit_GlobalExpr(self, node: qlast.GlobalExpr) -> None:
         self._write_keywords('GLOBAL ')
